@@ -3,7 +3,8 @@
    Common premises: [rect c data] = every row of the recording has c channels, 1 <= c;
    [chans_ok c chans] = channel entries in {-1} u [0, c); [A] = any sample type with a zero. *)
 From Coq Require Import ZArith List Lia Bool.
-From PV Require Import Base.PySlice Base.NpSearch Base.NpList C16.Model C16.Spec C03.Model C03.Spec C03.Proofs.
+From PV Require Import Base.PySlice Base.NpSearch Base.NpList C16.Model C16.Spec C03.Model C03.Spec C03.Proofs
+                       C03.Proofs2 C03.Proofs3.
 Import ListNotations.
 Open Scope Z_scope.
 
@@ -79,6 +80,130 @@ Theorem C03_export : forall (A : Type) (zero : A) (scale : A -> A) (c : Z) (data
 Proof. exact (@export_load). Qed.
 Print Assumptions C03_export.
 
+(* ---------------------------------------------------------------------------------------------------
+   Stage 2: the spike-subset store, the TemplateModel.get_waveforms dispatch, the comparator's clauses
+   --------------------------------------------------------------------------------------------------- *)
+
+(* Look-up in the store built from an export: export -> np.load -> store (ids, channel table, loaded
+   array) -> get_spike_waveforms.  For every queried id (ANY order, repetitions allowed) the answer is
+   [lookup_window]: the spike's window ON THE QUERIED CHANNELS times the unit factor, with zeros in the
+   columns whose channel is not stored for that spike -- and, NumPy's fancy assignment being what it is, in
+   every column whose channel is queried again further right (only the LAST occurrence of a repeated
+   channel receives data).  No hypothesis on the stored channel rows beyond entries in {-1} u [0, c): -1
+   may stand anywhere in a row and a row may repeat a channel.  [refers ids spikes x sp]: sp is the stored
+   spike at the last position of x in the id vector (the only one when ids are distinct). *)
+Theorem C03_store : forall (A : Type) (zero : A) (scale : A -> A) (c : Z) (data : list (list A))
+    (n nc : Z) (chunks : list iv) (spikes : list spike) (k : fkind) (ids q_ids q_ch : list Z),
+  rect c data -> 1 <= c -> 1 <= n -> 0 <= nc -> spikes_ok (zlen data) c nc spikes -> Tiles (zlen data) chunks ->
+  Forall (fun x => 0 <= x) ids -> zlen ids = zlen spikes ->
+  Forall (fun x => In x ids) q_ids -> q_ch <> [] -> Forall (fun ch => -1 <= ch) q_ch ->
+  exists f stw sps,
+    export zero scale data n chunks spikes nc k = Some f /\ np_load f = Some stw /\
+    Forall2 (refers ids spikes) q_ids sps /\
+    get_spike_waveforms zero q_ids q_ch (mkstore ids (map sp_ch spikes) stw) n =
+    Some (map (fun sp => lookup_window zero scale data n sp q_ch) sps).
+Proof. exact (@export_store_lookup). Qed.
+Print Assumptions C03_store.
+
+(* ... which is the whole scaled window when the queried channels are distinct and all stored for the
+   spike ... *)
+Theorem C03_store_full : forall (A : Type) (zero : A) (scale : A -> A) (data : list (list A)) (n : Z)
+    (sp : spike) (q_ch : list Z),
+  NoDup q_ch -> (forall ch, In ch q_ch -> In ch (sp_ch sp)) ->
+  lookup_window zero scale data n sp q_ch = map (map scale) (window zero data (sp_s sp) n q_ch).
+Proof. exact (@lookup_window_full). Qed.
+Print Assumptions C03_store_full.
+
+(* ... and, in the comparator's regime (queried channels other than -1 pairwise distinct; 0 x factor = 0),
+   the property's claim: the scaled window on the channels stored for the spike, zero on the others and on
+   -1 (clause 24 judges phylib's output against [masked_window]).  The guard is needed: C03_ex_store_dup. *)
+Theorem C03_store_masked : forall (A : Type) (zero : A) (scale : A -> A) (data : list (list A)) (n : Z)
+    (sp : spike) (q_ch : list Z),
+  scale zero = zero -> distinct_real q_ch ->
+  lookup_window zero scale data n sp q_ch = masked_window zero scale data n sp q_ch.
+Proof. exact (@lookup_window_masked). Qed.
+Print Assumptions C03_store_masked.
+
+(* TemplateModel.get_waveforms (comparator clause 25).
+   Raw data and no store: extract_waveforms on the model's traces at spike_samples[spike_ids] (NumPy indexing:
+   negative ids wrap), i.e. one window per queried id in query order; channel_ids=None = all channels. *)
+Theorem C03_route_model_raw : forall (A : Type) (zero : A) (c : Z) (data : list (list A)) (samples : list Z)
+    (n nch : Z) (q_ids : list Z) (channel_ids : option (list Z)),
+  rect c data -> 1 <= c -> 1 <= n ->
+  Forall (fun s => 0 <= s < zlen data) samples ->
+  Forall (fun i => - zlen samples <= i < zlen samples) q_ids ->
+  chans_ok c (route_chans nch channel_ids) ->
+  exists ss, Forall2 (fun i s => py_nth samples i = Some s) q_ids ss /\
+    model_get_waveforms zero (Some data) None samples n nch q_ids channel_ids =
+    GwOut (map (fun s => window zero data s n (route_chans nch channel_ids)) ss).
+Proof. exact (@route_raw). Qed.
+Print Assumptions C03_route_model_raw.
+
+(* A store that holds every queried id: the store look-up of C03_store is returned, whether or not raw
+   data exist ([traces] is arbitrary) -- the store takes precedence over the raw data. *)
+Theorem C03_route_model_store : forall (A : Type) (zero : A) (scale : A -> A) (c : Z) (data : list (list A))
+    (traces : option (list (list A))) (samples : list Z) (n nch : Z) (spikes : list spike)
+    (ids q_ids q_ch : list Z),
+  1 <= n -> Forall (fun sp => chans_ok c (sp_ch sp)) spikes ->
+  Forall (fun x => 0 <= x) ids -> zlen ids = zlen spikes ->
+  Forall (fun x => In x ids) q_ids -> q_ch <> [] -> Forall (fun ch => -1 <= ch) q_ch ->
+  exists sps, Forall2 (refers ids spikes) q_ids sps /\
+    model_get_waveforms zero traces
+      (Some (mkstore ids (map sp_ch spikes) (scaled_windows zero scale data n spikes)))
+      samples n nch q_ids (Some q_ch) =
+    GwOut (map (fun sp => lookup_window zero scale data n sp q_ch) sps).
+Proof. exact (@route_store). Qed.
+Print Assumptions C03_route_model_store.
+
+(* A store that misses a queried id (AssertionError inside get_spike_waveforms, caught): the raw route,
+   which fails when there is no raw data; neither store nor raw data: None. *)
+Theorem C03_route_model_fallback : forall (A : Type) (zero : A) (data : list (list A)) (st : store)
+    (samples : list Z) (n nch : Z) (q_ids : list Z) (channel_ids : option (list Z)) (x : Z),
+  In x q_ids -> ~ In x (st_ids st) ->
+  model_get_waveforms zero (Some data) (Some st) samples n nch q_ids channel_ids =
+  model_get_waveforms zero (Some data) None samples n nch q_ids channel_ids /\
+  model_get_waveforms zero None (Some st) samples n nch q_ids channel_ids = GwError /\
+  model_get_waveforms zero None None samples n nch q_ids channel_ids = GwNone.
+Proof. exact (@route_fallback_missing). Qed.
+Print Assumptions C03_route_model_fallback.
+
+(* Both routes equal the window: a store exported with unit factor 1 over the model's own spikes (store id
+   i = index into spike_samples), queried on distinct channels that are stored for every stored spike,
+   returns exactly what the raw route returns, namely the windows at spike_samples[spike_ids]. *)
+Theorem C03_route_model : forall (A : Type) (zero : A) (c : Z) (data : list (list A)) (samples : list Z)
+    (n nch : Z) (spikes : list spike) (ids q_ids q_ch : list Z),
+  rect c data -> 1 <= c -> 1 <= n ->
+  Forall (fun s => 0 <= s < zlen data) samples ->
+  Forall (fun sp => chans_ok c (sp_ch sp)) spikes ->
+  Forall (fun x => 0 <= x) ids ->
+  Forall2 (fun id sp => py_nth samples id = Some (sp_s sp)) ids spikes ->
+  Forall (fun x => In x ids) q_ids -> q_ch <> [] -> chans_ok c q_ch -> NoDup q_ch ->
+  (forall sp ch, In sp spikes -> In ch q_ch -> In ch (sp_ch sp)) ->
+  exists ss, Forall2 (fun i s => py_nth samples i = Some s) q_ids ss /\
+    model_get_waveforms zero (Some data)
+      (Some (mkstore ids (map sp_ch spikes) (scaled_windows zero (fun a => a) data n spikes)))
+      samples n nch q_ids (Some q_ch) = GwOut (map (fun s => window zero data s n q_ch) ss) /\
+    model_get_waveforms zero (Some data) None samples n nch q_ids (Some q_ch) =
+      GwOut (map (fun s => window zero data s n q_ch) ss).
+Proof. exact (@route_agree). Qed.
+Print Assumptions C03_route_model.
+
+(* The boolean clauses the comparator evaluates on phylib's OUTPUT imply the declarative statements
+   (cell by cell through Window_Spec, no default value): 21 = extract, 22 = shape, 23 = export, 24 = store. *)
+Theorem C03_checker_sound : forall (scale : Z -> Z) (c : Z) (data : list (list Z)) (samples : list Z) (n : Z)
+    (chans : list Z) (spikes : list spike) (q_pos q_ch : list Z) (nc : Z) (shape : list Z)
+    (obs : list (list (list Z))),
+  rect c data -> 0 <= n ->
+  (extract_spec_b data samples n chans obs = true -> chans_ok c chans ->
+     Extract_Spec 0 data samples n chans obs) /\
+  (export_shape_b spikes n nc shape = true -> shape = [zlen spikes; n; nc]) /\
+  (export_spec_b scale data n spikes obs = true -> Forall (fun sp => chans_ok c (sp_ch sp)) spikes ->
+     Export_Spec 0 scale data n spikes obs) /\
+  (store_spec_b scale data n spikes q_pos q_ch obs = true -> chans_ok c q_ch ->
+     Store_Spec 0 scale data n spikes q_pos q_ch obs).
+Proof. exact checker_sound. Qed.
+Print Assumptions C03_checker_sound.
+
 (* ---- non-vacuity: concrete, non-trivial instances ---- *)
 Definition ex_data : list (list Z) := [[1; 2]; [11; 12]; [21; 22]].
 (* recording shorter than the window, overflow on both sides, a -1 channel *)
@@ -101,3 +226,46 @@ Example C03_ex_export :
     (export 0 (fun v => v * 5) ex_data 2 [mkiv 0 2; mkiv 2 3] [mkspike 0 [0; 1]; mkspike 2 [1; -1]] 2 PyFloat) =
   Some ([2; 2; 2], Some [[[0; 0]; [5; 10]]; [[60; 0]; [110; 0]]]).
 Proof. vm_compute. reflexivity. Qed.
+
+(* ---- stage 2 ---- *)
+Definition ex_chunks := [mkiv 0 2; mkiv 2 3].
+(* two stored spikes; the first row has -1 in a NON-final position and does not store channel 0 *)
+Definition ex_spikes := [mkspike 0 [-1; 1]; mkspike 2 [1; 0]].
+Definition ex_store : option (store (A := Z)) :=
+  match export 0 (fun v => v * 5) ex_data 2 ex_chunks ex_spikes 2 PyFloat with
+  | Some f => option_map (mkstore [7; 3] (map sp_ch ex_spikes)) (np_load f)
+  | None => None
+  end.
+Example C03_ex_store_premises : spikes_ok_b 3 2 2 ex_spikes = true /\ tiles_b 3 ex_chunks = true.
+Proof. vm_compute. split; reflexivity. Qed.
+(* ids queried in another order with a repetition; channels [1; -1; 0]: spike 0 (id 7) stores channel 1 only *)
+Example C03_ex_store :
+  option_map (fun st => get_spike_waveforms 0 [3; 7; 3] [1; -1; 0] st 2) ex_store =
+  Some (Some [[[60; 0; 55]; [110; 0; 105]]; [[0; 0; 0]; [10; 0; 0]]; [[60; 0; 55]; [110; 0; 105]]]) /\
+  map (fun sp => lookup_window 0 (fun v => v * 5) ex_data 2 sp [1; -1; 0]) [mkspike 2 [1; 0]; mkspike 0 [-1; 1]; mkspike 2 [1; 0]] =
+  [[[60; 0; 55]; [110; 0; 105]]; [[0; 0; 0]; [10; 0; 0]]; [[60; 0; 55]; [110; 0; 105]]].
+Proof. vm_compute. split; reflexivity. Qed.
+(* why the comparator's regime wants distinct query channels: a channel queried twice gets the data only
+   in its LAST column, the first is left at zero -- whereas the stored-channel mask would fill both *)
+Example C03_ex_store_dup :
+  option_map (fun st => get_spike_waveforms 0 [3] [1; 1] st 2) ex_store = Some (Some [[[0; 60]; [0; 110]]]) /\
+  lookup_window 0 (fun v => v * 5) ex_data 2 (mkspike 2 [1; 0]) [1; 1] = [[0; 60]; [0; 110]] /\
+  masked_window 0 (fun v => v * 5) ex_data 2 (mkspike 2 [1; 0]) [1; 1] = [[60; 60]; [110; 110]].
+Proof. vm_compute. repeat split; reflexivity. Qed.
+(* the dispatch: the store wins over the raw data; a missing id falls back to the raw data; neither: None *)
+Example C03_ex_route :
+  option_map (fun st => model_get_waveforms 0 (Some ex_data) (Some st) [0; 1; 2; 2] 2 2 [3] (Some [0])) ex_store =
+    Some (GwOut [[[55]; [105]]]) /\
+  model_get_waveforms 0 (Some ex_data) None [0; 1; 2; 2] 2 2 [3; -4] None = GwOut [[[11; 12]; [21; 22]]; [[0; 0]; [1; 2]]] /\
+  option_map (fun st => model_get_waveforms 0 (Some ex_data) (Some st) [0; 1; 2; 2] 2 2 [3; 1] (Some [0])) ex_store =
+    Some (GwOut [[[11]; [21]]; [[1]; [11]]]) /\
+  option_map (fun st => model_get_waveforms 0 None (Some st) [0; 1; 2; 2] 2 2 [3; 1] (Some [0])) ex_store = Some GwError /\
+  model_get_waveforms (A := Z) 0 None None [0; 1; 2; 2] 2 2 [3] (Some [0]) = GwNone.
+Proof. vm_compute. repeat split; reflexivity. Qed.
+(* the checker's clauses are live: true on the window, false on a shifted one *)
+Example C03_ex_checker :
+  extract_spec_b ex_data [1] 2 [1; -1] [[[2; 0]; [12; 0]]] = true /\
+  extract_spec_b ex_data [1] 2 [1; -1] [[[12; 0]; [22; 0]]] = false /\
+  store_spec_b (fun v => v * 5) ex_data 2 ex_spikes [1; 0] [1; -1; 0]
+    [[[60; 0; 55]; [110; 0; 105]]; [[0; 0; 0]; [10; 0; 0]]] = true.
+Proof. vm_compute. repeat split; reflexivity. Qed.
